@@ -6,7 +6,7 @@ import json
 import urllib.parse
 
 SCOPES = ["recv", "hash", "hit", "miss", "pass", "fetch", "error", "deliver", "log"]
-RSTATES = ["lookup", "pass", "hash", "error", "restart", "deliver", "fetch", "deliver_stale", "hit_for_pass", "end", "other"]
+RSTATES = ["lookup", "pass", "hash", "error", "restart", "deliver", "fetch", "deliver_stale", "hit_for_pass", "end", "upgrade", "other"]
 # action codes: none bare errstmt restartstmt fail r-<state>
 ACTIONS = ["none", "bare", "errstmt", "restartstmt", "fail"] + ["r-" + s for s in RSTATES]
 # "absent": the subroutine is not defined at all (a whole column of an action table, never a single round)
@@ -442,3 +442,33 @@ def check_flow(flows, restarts, error, acts):
             return None if None in res else res[1]
         return walk(t, r, i)
     return walk("recv", 0, 0)
+
+
+# ---------------------------------------------------------------- parallel batches
+def run_sharded(jobs, shards=4):
+    """jobs: [(cmd, requests, hang_s)].  Every job is cut into `shards` interleaved slices, all slices of all jobs
+    run at the same time (one process each); replies come back in request order.  Deterministic: which
+    request goes to which process depends on its index only."""
+    import threading
+    import vcommon as V
+    results = []
+    threads = []
+    for cmd, reqs, hang in jobs:
+        out = [None] * len(reqs)
+        results.append(out)
+        for k in range(shards):
+            idx = list(range(k, len(reqs), shards))
+            if not idx:
+                continue
+
+            def work(cmd=cmd, idx=idx, out=out, hang=hang, reqs=reqs):
+                rep = V.run_batch(cmd, [reqs[i] for i in idx], hang_s=hang)
+                for i, r in zip(idx, rep):
+                    out[i] = r
+            t = threading.Thread(target=work)
+            threads.append(t)
+    for t in threads:
+        t.start()
+    for t in threads:
+        t.join()
+    return results
